@@ -73,7 +73,9 @@ def run_case(case):
         try:
             res = p.pf.to_pandas(filters=F, row_filter=True, columns=req)
         except Exception as e:
-            return discard("filter_refused:%s:%s" % (type(e).__name__, "+".join(sorted(fc.const_classes(case)))), labels)
+            if fc.is_refusal(e):
+                return discard("filter_refused:%s:%s" % (type(e).__name__, "+".join(sorted(fc.const_classes(case)))), labels)
+            return viol("read_raised|%s|dpv%d" % (exc_sig(e), case["opts"].get("dpv", 1)), exc_detail(e), labels=labels)
         rr = [int(x) for x in res["_rid"].tolist()]
         must = [r for r in p.rids if p.verdict[r] == mf.T]
         mustnot = {r for r in p.rids if p.verdict[r] == mf.F}
@@ -88,7 +90,9 @@ def run_case(case):
                         labels=labels)
         lost = [r for r in must if r not in rset]
         if lost:
-            return viol("lost_rows|%s|%s" % (flat, _why(case, p, lost[0])),
+            grp = next(g for g in p.groups if lost[0] in g)
+            whole = not (set(grp) & rset)
+            return viol("lost_rows|%s|%s%s" % (flat, _why(case, p, lost[0]), fc.notin_bound(case, p, grp) if whole else ""),
                         "row %d must qualify but was not returned; filters=%r; returned %r" % (lost[0], F, rr[:30]), labels=labels)
         order = [r for r in p.rids if r in rset]
         if order != rr:
@@ -135,7 +139,7 @@ def _mask_case(case, p, req, idx, labels):
     except Exception as e:
         if n != total:
             return ok(True, labels + ["mask_wrong_length_raises"])
-        return viol("mask_raised|" + exc_sig(e), exc_detail(e), labels=labels)
+        return viol("mask_raised|%s|dpv%d" % (exc_sig(e), case["opts"].get("dpv", 1)), exc_detail(e), labels=labels)
     if n != total:
         return viol("mask_wrong_length_accepted", "mask of length %d accepted for %d rows" % (n, total), labels=labels)
     rr = [int(x) for x in res["_rid"].tolist()]
